@@ -66,7 +66,7 @@ ASSUMPTIONS = [
 ]
 REQUIRED = ["op:gbk:dump-compare", "op:gbk:fixed-point", "op:gbk:write-repeatable", "op:json:dump-compare",
             "op:json:fixed-point", "op:json:write-repeatable",
-            "class:circular", "class:linear", "class:gene-bridging-origin", "class:gene-codon_start",
+            "class:circular", "class:linear", "class:gene-bridging-origin", "class:gene-codon_start", "class:gene-of-one-codon",
             "class:gene-multi-exon", "class:area-bridging-origin", "class:kind:single", "class:kind:neighbouring",
             "class:kind:interleaved", "class:kind:chemical_hybrid", "class:identical-protocluster-coordinates",
             "class:sideloaded-protocluster", "class:sideloaded-subregion", "class:subregion", "class:pfam",
@@ -726,6 +726,7 @@ def crosses_origin(location: str) -> bool:
 def count_classes(ctx, facts: dict, spec: dict):
     ctx.count("class:circular" if facts["circular"] else "class:linear")
     for name, key in (("gene-bridging-origin", "bridging_genes"), ("gene-codon_start", "codon_start_genes"),
+                      ("gene-of-one-codon", "one_codon_genes"),
                       ("gene-multi-exon", "multi_exon_genes"), ("area-bridging-origin", "bridging_areas"),
                       ("identical-protocluster-coordinates", "identical_protocluster_locations"),
                       ("identical-candidate-coordinates", "identical_candidate_locations"),
